@@ -1,7 +1,7 @@
 (* C10 -- I/O faults are contained and truthfully reported (engine part).
    "the exit status is non-zero whenever a planned operation did not complete ... Exit status 0 therefore
    implies the postcondition of C01": proved for the model, which follows the repaired main.rs
-   (`fix: exit with a non-zero status ...`; before it a run with per-file errors exited 0, C10-KF1). *)
+   (`fix: exit with a non-zero status ...`; before it a run with per-file errors exited 0) and the repaired planner. *)
 From Coq Require Import NArith ZArith List Bool Lia.
 From SyModel Require Import Engine EngineFaults.
 From SyProofs Require Import Engine_proofs EngineFaults_proofs.
@@ -16,12 +16,10 @@ Print Assumptions C10_failure_visible.
 (* exit status 0 implies the postcondition of C01 *)
 Theorem C10_exit0_implies_C01 : forall refuse ds c now U keep src dst,
   src_wf src -> c_dry_run c = false -> dst [] = None ->
-  (forall e, In e src -> se_is_dir e = true -> forall cc s t, dst (se_path e) <> Some (File cc s t)) ->
-  (forall e, In e src -> se_is_dir e = false -> dst (se_path e) <> Some Dir) ->
   exit_status c (run refuse ds c now U keep src dst) = 0%Z ->
   forall e, In e src -> post c ds now dst (r_fs (run refuse ds c now U keep src dst)) e.
 Proof.
-  intros refuse ds c now U keep src dst Hwf Hdry Hroot Hnf Hnd2 Hex e He.
+  intros refuse ds c now U keep src dst Hwf Hdry Hroot Hex e He.
   destruct (exit0_no_errors c _ Hex) as [Href Herr]. apply run_post; assumption.
 Qed.
 Print Assumptions C10_exit0_implies_C01.
@@ -40,8 +38,6 @@ Print Assumptions C10_failed_task_changes_nothing.
    for which no error is recorded satisfies the C01 postcondition, and with no fault injected the run is Engine.run *)
 Theorem C10_unaffected_entries_correct : forall flt junk refuse ds c now U keep src dst,
   src_wf src -> c_dry_run c = false -> dst [] = None ->
-  (forall e, In e src -> se_is_dir e = true -> forall cc s t, dst (se_path e) <> Some (File cc s t)) ->
-  (forall e, In e src -> se_is_dir e = false -> dst (se_path e) <> Some Dir) ->
   let r := run_f flt junk refuse ds c now U keep src dst in
   r_refused r = false ->
   forall e, In e src -> (forall a x, ~ In (se_path e, a, x) (r_errors r)) -> post c ds now dst (r_fs r) e.
@@ -66,29 +62,31 @@ Example C10_injected_faults :
   exit_status c r = 1%Z.
 Proof. vm_compute. repeat split. Qed.
 
-(* Known finding C10-KF1: type conflicts the planner does not see -- a regular file where the source has a
-   directory (exists() is all that is tested), or a directory whose stat size equals the source file's size
-   under --size-only: planned Skip, exit status 0, wrong kind left in place.  The hypotheses of
-   C10_exit0_implies_C01 exclude exactly these two shapes. *)
-Theorem C10_refuted_type_conflict_skip :
-  exists c ds src dst, let r := run (fun _ _ _ => false) ds c 9%Z [] [] src dst in
-    exit_status c r = 0%Z /\ (exists e, In e src /\ se_is_dir e = true /\ r_fs r (se_path e) <> Some Dir) .
-Proof.
-  exists (mk_cfg false false 50 false false false false 100 100), (fun _ => (0%N, 0%Z)),
-         [mk_sentry [1%N] true 0 0%Z 0 false], (fun p => if peqb p [1%N] then Some (File 3 3 3%Z) else None).
-  split; [vm_compute; reflexivity|]. eexists. split; [left; reflexivity|]. split; [reflexivity | vm_compute; discriminate].
-Qed.
-Print Assumptions C10_refuted_type_conflict_skip.
+(* (was known finding C10-KF1) an entry of the wrong kind in the destination -- a regular file where the source has a directory, a
+   directory where the source has a file -- used to be planned Skip: exit status 0 with the wrong kind left in place.  Since
+   `fix: an entry of the wrong kind in the destination is reported, not skipped` such an entry makes its task fail, so a run that
+   reports no error met none: C01's postcondition and this one hold for EVERY destination, with no side condition *)
+Theorem C10_no_error_means_no_type_conflict : forall refuse ds c now U keep src dst,
+  src_wf src -> c_dry_run c = false ->
+  let r := run refuse ds c now U keep src dst in
+  r_refused r = false -> r_errors r = [] ->
+  forall e, In e src ->
+    (se_is_dir e = true -> forall cc s t, dst (se_path e) <> Some (File cc s t)) /\
+    (se_is_dir e = false -> dst (se_path e) <> Some Dir).
+Proof. exact run_no_conflicts. Qed.
+Print Assumptions C10_no_error_means_no_type_conflict.
 
-Theorem C10_refuted_dir_stat_skip :
-  exists c ds src dst, let r := run (fun _ _ _ => false) ds c 9%Z [] [] src dst in
-    exit_status c r = 0%Z /\ (exists e, In e src /\ se_is_dir e = false /\ r_fs r (se_path e) = Some Dir).
-Proof.
-  exists (mk_cfg false false 50 false false true false 100 100), (fun _ => (4096%N, 0%Z)),
-         [mk_sentry [1%N] false 4096 1000%Z 7 false], (fun p => if peqb p [1%N] then Some Dir else None).
-  split; [vm_compute; reflexivity|]. eexists. split; [left; reflexivity|]. split; vm_compute; reflexivity.
-Qed.
-Print Assumptions C10_refuted_dir_stat_skip.
+(* the two shapes that used to be skipped silently are reported now *)
+Example C10_dir_over_file_reported :
+  let c := mk_cfg false false 50 false false false false 100 100 in
+  let r := run (fun _ _ _ => false) (fun _ => (0%N, 0%Z)) c 9%Z [] [] [mk_sentry [1%N] true 0 0%Z 0 false] (fun p => if peqb p [1%N] then Some (File 3 3 3%Z) else None) in
+  r_errors r = [([1%N], ACreate, E_NotDir)] /\ exit_status c r = 1%Z.
+Proof. vm_compute. split; reflexivity. Qed.
+Example C10_file_over_dir_reported :
+  let c := mk_cfg false false 50 false false true false 100 100 in
+  let r := run (fun _ _ _ => false) (fun _ => (4096%N, 0%Z)) c 9%Z [] [] [mk_sentry [1%N] false 4096 1000%Z 7 false] (fun p => if peqb p [1%N] then Some Dir else None) in
+  r_errors r = [([1%N], AUpdate, E_IsDir)] /\ exit_status c r = 1%Z.
+Proof. vm_compute. split; reflexivity. Qed.
 
 (* a type-conflicting path: the error is recorded, the other file is still transferred, and the run does not exit 0 *)
 Example C10_type_conflict :
